@@ -288,11 +288,20 @@ class SObj:
 
 
 class STuple:
-    def __init__(self, items: t.Sequence[t.Any]) -> None:
+    def __init__(self, items: t.Sequence[t.Any], names: t.Optional[t.Sequence[str]] = None) -> None:
         self.items = list(items)
+        self.names = list(names) if names is not None else None  # a NamedTuple value: fields by name as well
 
     def __repr__(self) -> str:
         return f"STuple{tuple(self.items)!r}"
+
+    def __getattr__(self, name: str) -> t.Any:
+        # a NamedTuple value also answers like a constructed object: .fields = {name: item}
+        if name == "fields":
+            names = self.__dict__.get("names")
+            if names is not None:
+                return dict(zip(names, self.__dict__["items"]))
+        raise AttributeError(name)
 
 
 
